@@ -179,8 +179,8 @@ def orchestrate(pid: str, tier: str, seed: int) -> int:
         'wall_s': round(timer.elapsed(), 2),
         'violations': len(seen),
     }
-    os.makedirs(os.path.join(core.ROOT, 'evidence'), exist_ok=True)
-    ev_path = os.path.join(core.ROOT, 'evidence', f'{pid}.json')
+    os.makedirs(os.path.join(core.OUT_ROOT, 'evidence'), exist_ok=True)
+    ev_path = os.path.join(core.OUT_ROOT, 'evidence', f'{pid}.json')
     with open(ev_path + '.tmp', 'w') as f:
         json.dump(evidence, f, indent=1, default=repr)
     os.replace(ev_path + '.tmp', ev_path)
@@ -233,7 +233,10 @@ def main(argv=None) -> int:
         if args.replay:
             return replay(pid, args.replay)
         if args.job is not None:
-            return run_job(pid, args.tier, seed, args.job, args.out)
+            rc = run_job(pid, args.tier, seed, args.job, args.out)
+            sys.stdout.flush()
+            sys.stderr.flush()
+            os._exit(rc)     # do not wait for non-daemon threads a hung case may have left behind
         return orchestrate(pid, args.tier, seed)
     except SystemExit:
         raise
